@@ -19,7 +19,7 @@ META = {
         "in async machines nested sends are issued from coroutine callbacks only (plain callbacks get a coroutine back: documented as not recommended, H7)",
     ],
     "must_observe": ["nested_sends", "events_executed", "results_checked", "chain_links"],
-    "shard_timeout": {"quick": 300, "thorough": 3400},
+    "shard_timeout": {"quick": 900, "thorough": 3400},
 }
 
 PROFILE = {"n_states": (2, 5), "n_events": (1, 3), "extra_transitions": (1, 6), "p_multi_event": 0.2,
